@@ -72,6 +72,19 @@ func run(raw json.RawMessage) (c lib.Case) {
 	panic("unknown kind " + in.Kind)
 }
 
+// cutCase reports a scenario that could not be carried to its end because a step that involves
+// only LIVE servers failed or did not happen within its deadline. Such a step is an observation
+// (a send to a live peer failed / was not delivered: clause 4; something did not return: clause 5),
+// never a reason to drop the input.
+func cutCase(class, what string, blocked bool, obs interface{}) lib.Case {
+	coq := "CCluster 1 1 true true true true false" // clause 4
+	if blocked {
+		coq = "CCluster 1 0 true true true true true" // clause 5
+	}
+	return lib.Case{Coq: coq, Class: class + "+cut", Nontrivial: true,
+		Obs: map[string]interface{}{"scenario_cut_at": what, "observed": obs}}
+}
+
 // ---- generators ---------------------------------------------------------------
 
 var fatalClasses = []string{"ETimeout", "EClosed", "EEOF", "EUnknown"}
